@@ -97,6 +97,15 @@ def inputs(rng, tier):
         for _ in range(q(12, 400)):
             s = rng.choice((-1, 1))
             both_orders("nltrans", s * (t + rng.uniform(-0.002, 0.002)), rng.uniform(-180, 180))
+    # the inside of every longitude-zone band (NL = 59 .. 1), both hemispheres, away from the prime meridian (a wrong zone
+    # count shows in the longitude only)
+    for n in range(1, 60):
+        lo = transition_lat(n + 1) if n < 59 else 0.0          # NL = n between the drop to n (coming from n + 1) ...
+        hi = transition_lat(n) if n >= 2 else 89.5            # ... and the drop to n - 1
+        for _ in range(q(1, 20)):
+            for s_ in (-1, 1):
+                lat = s_ * (lo + (hi - lo) * rng.uniform(0.2, 0.8))
+                both_orders("nlband", lat, rng.choice((-1, 1)) * rng.uniform(20, 175))
     # zone rows: every latitude zone of both grids at boundary offsets
     for zone in range(-15, 15):
         for off in (0.0, 1e-7, 0.5, 5.999999, 3.0):
